@@ -156,6 +156,12 @@ class World:
         elif kind == "fs":
             self.dir = tempfile.mkdtemp(prefix="c23-")
             caching, plain = CachingFileSystemLoader(self.dir, **kw), FileSystemLoader(self.dir)
+        elif kind == "fs2":  # two search paths: <dir>/p0 is searched before <dir>/p1
+            self.dir = tempfile.mkdtemp(prefix="c23-")
+            paths = [os.path.join(self.dir, "p0"), os.path.join(self.dir, "p1")]
+            for p in paths:
+                os.makedirs(p)
+            caching, plain = CachingFileSystemLoader(paths, **kw), FileSystemLoader(paths)
         else:
             raise ValueError(kind)
         eg = _gdict(case["eg"]) or {}
@@ -164,8 +170,8 @@ class World:
         self.loop = None
 
     def edit(self, idx, full, v):
-        if self.kind == "fs":
-            p = os.path.join(self.dir, full)
+        if self.kind in ("fs", "fs2"):
+            p = os.path.join(self.dir, full) if self.kind == "fs" else os.path.join(self.dir, f"p{idx}", full)
             if v is None:
                 if os.path.exists(p):
                     os.unlink(p)
@@ -208,6 +214,7 @@ class World:
                 gs = [int(x) if x else None for x in out[1:]]
                 if out[0] != head:
                     return {"err": "render-does-not-follow-source"}
+                self.last_handle = t
                 return {"ok": {"name": t.name, "text": _parse_head(head), "g": gs}}
         except LiquidError as e:
             return {"err": type(e).__name__}
@@ -219,15 +226,26 @@ class World:
     def run(self, events):
         import asyncio
 
-        outs, ref = [], []
+        outs, ref, shared, handles = [], [], [], []
         self.loop = _loop()
+        final_g = []
         try:
             for ev in events:
                 if ev[0] == "edit":
                     self.edit(ev[1], ev[2], ev[3])
                 else:
+                    self.last_handle = None
                     outs.append(self.request(0, ev))
+                    # was an object handed out before handed out again (the cached object itself)?
+                    shared.append(self.last_handle is not None and any(self.last_handle is h for h in handles))
+                    handles.append(self.last_handle)
                     ref.append(self.request(1, ev))
+            # what every handle returned by the caching loader renders now, at the end of the history
+            for h in handles:
+                if h is None:
+                    final_g.append(None)
+                else:
+                    final_g.append([int(x) if x else None for x in h.render().split("|")[1:]])
         finally:
             try:
                 # no executor thread may survive a case in the main process (it forks worker pools later); a pool
@@ -239,7 +257,7 @@ class World:
             finally:
                 if self.dir:
                     shutil.rmtree(self.dir, ignore_errors=True)
-        return {"outs": outs, "ref": ref}
+        return {"outs": outs, "ref": ref, "shared": shared, "final_g": final_g}
 
 
 # ---- the property, stated directly ----------------------------------------------------------------
@@ -327,6 +345,8 @@ def oracle_history(case, obs):
         if a["text"] != b["text"]:
             if kind == "choice" and where.get(a["text"][1]) == 1 and where.get(b["text"][1]) == 0:
                 return ("choice|shadowed-by-earlier-loader", detail)
+            if kind == "fs2" and where.get(a["text"][1]) == 1 and where.get(b["text"][1]) == 0:
+                return ("fs2|shadowed-by-earlier-search-path", detail)
             return (f"{kind}|{mode}|stale-source", detail)
         return (f"{kind}|{mode}|globals", detail)
     return None
@@ -368,6 +388,29 @@ class HistoryStream(Stream):
     def line(self, case):
         return ["cacheloader", case["kind"], case["cap"], case["auto_reload"], case["ns_key"], case["eg"], PROBES, case["events"]]
 
+    def canon_model(self, case, mobs):
+        """The model says which responses are the cached object itself; from that and the key strings follows which
+        handles are one object, hence what each handle renders at the end (theorem alias_rebinds): the globals of
+        the last request that was handed that object."""
+        if not (isinstance(mobs, dict) and "shared" in mobs):
+            return mobs
+        reqs = [ev for ev in case["events"] if ev[0] == "req"]
+        obj_of_key: dict = {}
+        objs, last_g = [], {}
+        for i, ev in enumerate(reqs):
+            o = mobs["outs"][i]
+            if "ok" not in o:
+                objs.append(None)
+                continue
+            k = key_string(ident_of(case, ev))
+            oid = obj_of_key[k] if mobs["shared"][i] and k in obj_of_key else i
+            obj_of_key[k] = oid
+            objs.append(oid)
+            last_g[oid] = o["ok"]["g"]
+        d = dict(mobs)
+        d["final_g"] = [None if oid is None else last_g[oid] for oid in objs]
+        return d
+
     def oracle(self, case, obs):
         return oracle_history(case, obs)
 
@@ -395,6 +438,10 @@ class HistoryStream(Stream):
             t.append("not-found")
         if obs["outs"] != obs["ref"]:
             t.append("differs-from-noncaching")
+        if any(obs.get("shared") or []):
+            t.append("cached-object-shared")
+        if any(o is not None and "ok" in obs["outs"][i] and o != obs["outs"][i]["ok"]["g"] for i, o in enumerate(obs.get("final_g") or [])):
+            t.append("earlier-handle-rebound")
         return t
 
     def shrink_candidates(self, case):
@@ -575,5 +622,27 @@ class FalsyNsStream(HistoryStream):
         return out
 
 
+class PathsStream(HistoryStream):
+    """Two sources for one name, the first shadowing the second: FileSystemLoader with two search paths and
+    ChoiceLoader of two dictionaries; the name appears in / disappears from either between requests."""
+
+    name = "paths"
+    exhaustive = True
+
+    def cases(self, ctx):
+        L = ctx.scale(4, 5)
+        out = []
+        for kind in ("fs2", "choice"):
+            alphabet = [req("a", None, None, "sync"), req("a", None, None, "async"),
+                        edit("a", True, 0), edit("a", True, 1), edit("a", None, 0), edit("a", None, 1)]
+            for n in range(2, L + 1):
+                for seq in itertools.product(alphabet, repeat=n):
+                    if seq[-1][0] == "edit" or seq[0][0] == "req" or sum(1 for e in seq if e[0] == "req") < 2:
+                        continue
+                    for ar in (True, False):
+                        out.append({"kind": kind, "cap": 1, "auto_reload": ar, "ns_key": False, "eg": [], "events": number_edits([], seq)})
+        return out
+
+
 def streams(ctx):
-    return [SeqStream(), SlashStream(), RandomStream(), FalsyNsStream()]
+    return [SeqStream(), SlashStream(), RandomStream(), FalsyNsStream(), PathsStream()]
